@@ -7,6 +7,7 @@ import collections, hashlib, json, multiprocessing, os, re, shutil, sys, time, t
 
 VERIF = os.path.dirname(os.path.dirname(os.path.dirname(os.path.abspath(__file__))))
 REPO = os.environ.get("VERIF_REPO", "/repo")
+OUT = os.environ.get("VERIF_OUT", VERIF)  # evidence/ and replays/ go here (seeded-mutant runs use a scratch dir)
 
 
 class HarnessError(Exception):
@@ -122,11 +123,11 @@ class Ctx:
                     lines.append("KNOWN-FINDING: property=%s %s [%s]" % (self.pid, k["what"], k["key"]))
                 continue
             viol += 1
-            d = os.path.join(VERIF, "replays", self.pid)
+            d = os.path.join(OUT, "replays", self.pid)
             os.makedirs(d, exist_ok=True)
             path = os.path.join(d, slug(key) + ".json")
             json.dump({"property": self.pid, "key": key, "what": what, "case": case, "seed": self.seed, "tier": self.tier}, open(path, "w"), indent=1, default=repr)
-            lines.append("VIOLATION property=%s replay=%s" % (self.pid, os.path.relpath(path, VERIF)))
+            lines.append("VIOLATION property=%s replay=%s" % (self.pid, os.path.relpath(path, OUT)))
             lines.append("  key=%s what=%s" % (key, str(what)[:400]))
         cov = {
             "evaluations": part.evaluations,
@@ -147,8 +148,8 @@ class Ctx:
             "property_id": self.pid, "tier": self.tier, "seed": self.seed, "level": self.level,
             "coverage": cov, "assumptions": self.assumptions, "wall_s": round(time.time() - self.t0, 2), "violations": viol,
         }
-        os.makedirs(os.path.join(VERIF, "evidence"), exist_ok=True)
-        json.dump(ev, open(os.path.join(VERIF, "evidence", self.pid + ".json"), "w"), indent=1, default=repr)
+        os.makedirs(os.path.join(OUT, "evidence"), exist_ok=True)
+        json.dump(ev, open(os.path.join(OUT, "evidence", self.pid + ".json"), "w"), indent=1, default=repr)
         for l in lines:
             print(l)
         print("%s tier=%s seed=%d evaluations=%d nontrivial=%d violations=%d wall=%.1fs" % (
